@@ -200,3 +200,29 @@ func (p *searchStatePool) put(state *SearchState) {
 	state.reset()
 	p.pool.Put(state)
 }
+
+// pooledPikeVM is a goroutine-safe front for a PikeVM. A PikeVM mutates its internal
+// state during every search, and a reverse searcher is a single instance that is entered
+// from any goroutine, so it must not search on a VM it owns: every call borrows a private VM.
+type pooledPikeVM struct {
+	pool sync.Pool
+}
+
+func newPooledPikeVM(n *nfa.NFA) *pooledPikeVM {
+	p := &pooledPikeVM{}
+	p.pool.New = func() any { return nfa.NewPikeVMLazy(n) }
+	return p
+}
+
+// Search is PikeVM.Search on a borrowed VM.
+func (p *pooledPikeVM) Search(haystack []byte) (int, int, bool) {
+	return p.SearchAt(haystack, 0)
+}
+
+// SearchAt is PikeVM.SearchAt on a borrowed VM.
+func (p *pooledPikeVM) SearchAt(haystack []byte, at int) (int, int, bool) {
+	vm := p.pool.Get().(*nfa.PikeVM)
+	start, end, found := vm.SearchAt(haystack, at)
+	p.pool.Put(vm)
+	return start, end, found
+}
